@@ -105,6 +105,11 @@ def gather_cases(tier):
                         if k == 3 and n == 3:
                             continue
                         yield dict(kind="gather", n=n, es=es, res=res, mc=mc, k=k)
+    for n in (1, 2):
+        for es in shapes(n):
+            for res in ("a" * n, ("at" * n)[:n]):
+                for mc in (1, 2):
+                    yield dict(kind="gather", n=n, es=es, res=res, mc=mc, k=3, chain=True)
     # concurrent FIRST awaits of a DAG whose setup nodes have not run yet
     from .c03 import up_closed_sets
     for n in (2, 3):
@@ -167,22 +172,38 @@ def run_gather(acc, c, only_prefix=None):
 
         async def op():
             ctl = H.ctl()
-            drv = H.Driver(ctl, k)
+            drv = H.Driver(ctl, 2 if c.get("chain") else k)
             ctl.driver = drv
             holder["drv"] = drv
 
-            async def one(i):
+            async def aw(i):
                 try:
                     return ("ok", await d(argv[i]))
                 except BaseException as e:  # noqa: BLE001
                     return ("exc", e)
+
+            async def one(i):
+                try:
+                    return [await aw(i)]
+                finally:
+                    drv.active -= 1
+
+            async def chain_of(idx):
+                # one task that awaits the DAG several times in a row: its second await STARTS after its first has ended, possibly
+                # while the await of the sibling task is still in flight
+                try:
+                    return [await aw(i) for i in idx]
                 finally:
                     drv.active -= 1
 
             tick = asyncio.ensure_future(drv.ticker())
             drvt = asyncio.ensure_future(drv.run())
             try:
-                return await asyncio.gather(*[one(i) for i in range(k)])
+                if c.get("chain"):
+                    parts = await asyncio.gather(one(0), chain_of(list(range(1, k))))
+                else:
+                    parts = await asyncio.gather(*[one(i) for i in range(k)])
+                return [r for part in parts for r in part]
             finally:
                 drv.stop = True
                 drv.active = 0
@@ -251,6 +272,20 @@ def run_gather(acc, c, only_prefix=None):
     acc.transitions += t_
     if acc.cases <= 2:
         acc.sample({"case": c, "schedules": nex})
+
+
+def overlap_subset(k: int = 2):
+    """Two awaits of ONE AsyncDAG object in flight at the same time (every choice of the driver): the slice that the checks about
+    values (C01), dependencies (C02), entry counts (C03) and call-to-call state (C15) run as well."""
+    for n in (2, 3):
+        for es in shapes(n):
+            if n == 3 and (len(es) != 2 or k > 2):
+                continue
+            for res in (("at" * n)[:n], ("ta" * n)[:n], "a" * n, ("am" * n)[:n]):
+                yield dict(kind="gather", n=n, es=es, res=res, mc=2, k=k)
+                if k == 3 and n == 2 and res in ("aa", "at"):
+                    # await A || (await B ; await C): C starts after B has ended, while A may still be in flight
+                    yield dict(kind="gather", n=n, es=es, res=res, mc=2, k=3, chain=True)
 
 
 def async_hist_cases(tier):
